@@ -1591,9 +1591,10 @@ func callBin(n *node) {
 	case n.anc.kind == goStmt:
 		// Execute function in a goroutine, discard results.
 		n.exec = func(f *frame) bltn {
+			// Goroutine's arguments should be copied.
 			in := make([]reflect.Value, l)
 			for i, v := range values {
-				in[i] = getBinValue(getMapType, v, f)
+				in[i] = fixArg(getBinValue(getMapType, v, f))
 			}
 			go callFn(value(f), in)
 			return tnext
